@@ -377,6 +377,16 @@ func Run(ctx *core.Ctx) int {
 	if ctx.Replay != "" {
 		return core.RunReplay(ctx, Eval)
 	}
+	if spec := ctx.Args["universe"]; spec != "" { // debugging aid: --universe "prog seg prod start stop final"
+		var sh Shape
+		fmt.Sscan(spec, &sh.Prog, &sh.Seg, &sh.Prod, &sh.Start, &sh.Stop, &sh.Final)
+		names, _, err := Universe(sh)
+		fmt.Println(err)
+		for i, n := range names {
+			fmt.Printf("bit %d (%d) %s\n", i, 1<<uint(i), short(n))
+		}
+		return 0
+	}
 	shapes := []Shape{
 		{Prog: "storemap-0-0", Seg: 5, Prod: true, Start: 6, Stop: 12, Final: 10},
 		{Prog: "twostages-0-0-0", Seg: 5, Prod: true, Start: 2, Stop: 6, Final: 5},
